@@ -263,7 +263,9 @@ Fixpoint prefix_b (x y : list bool) : bool :=
    10 the counter was read negative                                                          (T11_counter_balanced)
    11 at the end of a settled trace a forwarded exchange never had its response written      (T11_inflight_completes)
    12 what a client received differs from what the proxy wrote (truncated / other close flag) (T11_inflight_completes)
-   13 a closing response was written but the client did not see the socket closed            (T11_inflight_completes) *)
+   13 a closing response was written but the client did not see the socket closed            (T11_inflight_completes)
+   14 a tunnel (CONNECT 2xx / 101) was opened although closing had been observed before its dial / round
+      trip returned: the client was told so without Connection: close, or the tunnel ran               (T11_no_new_work) *)
 Definition pstep (s : pscan) (l : label) : pscan :=
   match l with
   | ClosingSeen => mkps true (ps_close_called s) (ps_ctx s) (ps_conns s) (ps_bad s) (ps_at_sd s) (ps_at_cl s)
@@ -297,11 +299,12 @@ Definition pstep (s : pscan) (l : label) : pscan :=
                     (p_must_close p) (p_gone p) (p_connect p) (p_wrote p) (p_cli p) (p_cli_bad p) (p_eof p))
   | WrCall i => let p := getp s i in flag_if (p_acc_late p) 2 s
   | Wrote i b e => let p := getp s i in
+      flag_if (p_rt_late p && p_connect p && negb b && negb e) 14 (
       flag_if (p_rt_late p && negb (p_connect p) && negb b && negb e) 3
         (flag_if (e && negb (p_gone p) && negb (ps_close_called s) && negb (p_closed p)) 4
           (setp s i (mkp (p_fb_late p) (p_acc_late p) (p_addr p) (p_closed p) false (p_rt_late p)
                          (p_must_close p || b || e) (p_gone p) (p_connect p)
-                         (if e || p_connect p then p_wrote p else p_wrote p ++ [b]) (p_cli p) (p_cli_bad p) (p_eof p))))
+                         (if e || p_connect p then p_wrote p else p_wrote p ++ [b]) (p_cli p) (p_cli_bad p) (p_eof p)))))
   | ClientGone i => let p := getp s i in
       setp s i (mkp (p_fb_late p) (p_acc_late p) (p_addr p) (p_closed p) (p_inflight p) (p_rt_late p) (p_must_close p)
                     true (p_connect p) (p_wrote p) (p_cli p) (p_cli_bad p) (p_eof p))
@@ -309,9 +312,10 @@ Definition pstep (s : pscan) (l : label) : pscan :=
       setp s i (mkp (p_fb_late p) (p_acc_late p) (p_addr p) true (p_inflight p) (p_rt_late p) (p_must_close p)
                     (p_gone p) (p_connect p) (p_wrote p) (p_cli p) (p_cli_bad p) (p_eof p))
   | CliResp i full ch => let p := getp s i in
+      flag_if (p_connect p && p_rt_late p && p_inflight p && full && negb ch) 14 (
       setp s i (mkp (p_fb_late p) (p_acc_late p) (p_addr p) (p_closed p) (p_inflight p) (p_rt_late p) (p_must_close p)
                     (p_gone p) (p_connect p) (p_wrote p) (if full then p_cli p ++ [ch] else p_cli p)
-                    (p_cli_bad p || negb full) (p_eof p))
+                    (p_cli_bad p || negb full) (p_eof p)))
   | CliEOF i => let p := getp s i in
       setp s i (mkp (p_fb_late p) (p_acc_late p) (p_addr p) (p_closed p) (p_inflight p) (p_rt_late p) (p_must_close p)
                     (p_gone p) (p_connect p) (p_wrote p) (p_cli p) (p_cli_bad p) true)
